@@ -8,5 +8,7 @@ CONSTANTS
  EarlyPut = FALSE
  Alias = FALSE
  CloseWaits = TRUE
+ MaxRetire = 1
+ RetireDrops = FALSE
 INVARIANTS NoPanic PublishedIsOwn AtMostOnce NoUseAfterPut CountsSane CountsExact ExactlyOnceIfData NoPhantom
 CHECK_DEADLOCK FALSE
